@@ -28,6 +28,8 @@ RULE = (
     'Non-trivial: number with fraction and (leading-zero omission, sign or trailing zeros); colour in '
     'function form; text containing quote, parenthesis or white space; distinct by source literal.'
     ' Every number literal is also written as an argument of calc(), f() and max(): value and unit (also of a zero length) must be kept.'
+    ' pynumber: Python ints (to 25 digits) and floats with at most 6 decimals given through PropertyValue(n), Property(name, n), setProperty(name, n) '
+    'and DimensionValue.value = n (on literals with and without explicit sign): the written text denotes exactly that number and keeps the unit.'
 )
 ASSUMPTIONS = [
     'exactness is asserted for literals with <= 15 significant digits (IEEE double) and <= 6 fraction digits',
@@ -804,6 +806,67 @@ def check_listed(case, ctx):
 
 
 SUBS.append(Sub('listed', check_listed, enumerate=listed_cases, shards_quick=1, shards_thorough=1))
+
+
+# --------------------------------------------------------------------------- Python numbers given through the API
+
+
+def pynumber_case():
+    # numbers %f writes exactly: at most 6 decimals, magnitude below 2**33 (F18-3 is listed for the rest)
+    small = st.builds(lambda m, k: [m, k], st.integers(-10 ** 9, 10 ** 9), st.integers(0, 6))
+    return st.fixed_dictionaries({
+        'num': st.one_of(small, st.builds(lambda m: [m, 0], st.integers(-10 ** 25, 10 ** 25))),
+        'as_float': st.booleans(),
+        'init': st.sampled_from(['+1px', '-1px', '1px', '+0.5em', '-.5%', '+2', '0']),
+        'entry': st.sampled_from(['PropertyValue', 'setProperty', 'value=', 'Property']),
+    })
+
+
+def check_pynumber(case, ctx):
+    m, k = case['num']
+    exact = Fraction(m, 10 ** k)
+    if case['as_float'] or k:
+        num = m / 10 ** k
+        if Fraction(num) != exact and abs(exact) >= 2 ** 33:
+            ctx.event('excluded:float-noise-large-magnitude(F18-3)')
+            return
+        if abs(Fraction(num) - exact) > Fraction(1, 10 ** 9) or abs(exact) >= 2 ** 53:
+            ctx.event('excluded:float-cannot-hold-the-number')
+            return
+    else:
+        num = m
+    saved = cssutils.log.raiseExceptions
+    cssutils.log.raiseExceptions = False
+    try:
+        with lib('pynumber'):
+            unit = ''
+            if case['entry'] == 'PropertyValue':
+                out = PropertyValue(num).cssText
+            elif case['entry'] == 'setProperty':
+                st_ = cssutils.css.CSSStyleDeclaration()
+                st_.setProperty('x-n', num)
+                out = st_.getPropertyValue('x-n')
+            elif case['entry'] == 'Property':
+                out = cssutils.css.Property('x-n', num).value
+            else:
+                pv = PropertyValue(case['init'])
+                pv[0].value = num
+                out = pv.cssText
+                unit = frac_of(case['init'])[3] or ''
+        f = frac_of(out)
+        if isinstance(num, float) and 'e' in repr(num):
+            ctx.event('python-repr-has-exponent')
+        ctx.case([case['num'], case['as_float'], case['entry'], case['init'] if case['entry'] == 'value=' else ''],
+                 isinstance(num, float) or abs(m) >= 2 ** 53 or case['entry'] == 'value=', {'written': out})
+        if f is None or f[4] != exact or (f[3] or '') not in (unit, '' if exact == 0 else unit):
+            raise Violation('pynumber:' + ('value-set' if case['entry'] == 'value=' else 'number-given') + ':written-as-another-number',
+                            f'{case["entry"]} with the Python number {num!r}' + (f' on {case["init"]!r}' if case['entry'] == 'value=' else '')
+                            + f' is written {out!r}')
+    finally:
+        cssutils.log.raiseExceptions = saved
+
+
+SUBS.append(Sub('pynumber', check_pynumber, strategy=pynumber_case(), quick=4000, thorough=300000, shards_quick=4))
 
 
 from vlib.reported import reported_sub  # noqa: E402
